@@ -1,11 +1,15 @@
 #!/bin/sh
 # Run every registered check (quick by default) against /repo and print one line each.
+# Thorough results are also copied to evidence/thorough/<id>.json so a later quick run does not erase them.
 tier=${1:-quick}
+shift 2>/dev/null
+props=${*:-C01 C02 C03 C05 C06 C07 C08 C09 C10 C11 C12 C13 C16 C17 C18 C19}
 cd /verif
-for p in C01 C02 C03 C05 C06 C07 C08 C09 C10 C11 C12 C13 C16 C17 C18 C19; do
+for p in $props; do
   start=$(date +%s)
   out=$(./run.py check $p --tier $tier 2>&1); rc=$?
   end=$(date +%s)
   echo "$p rc=$rc $((end-start))s $(echo "$out" | tail -1)"
-  echo "$out" | grep -E "^(VIOLATION|HARNESS)" | head -3
+  echo "$out" | grep -E "^(VIOLATION|HARNESS|KNOWN-FINDING)" | head -5
+  if [ "$tier" = thorough ] && [ $rc -eq 0 ]; then mkdir -p evidence/thorough; cp evidence/$p.json evidence/thorough/$p.json; fi
 done
